@@ -631,7 +631,8 @@ static int do_replay(Engine &engine, const std::string &path) {
     return 0;
   }
   if (family(o.vclass) == family(want) &&
-      (o.hash == want_hash || family(want) == "crash-family")) {
+      (o.hash == want_hash || family(want) == "crash-family" ||
+       engine.hash_free_class(want))) {
     printf("replay: REPRODUCED exactly\n");
   } else {
     printf("replay: violation differs from recorded one (class %s hash %llu)\n",
@@ -939,12 +940,17 @@ int check_main(int argc, char **argv, Engine &engine) {
             });
   std::map< std::string, Violation > groups; // signature -> first violation
   std::map< std::string, uint64_t > group_counts;
+  // further members of a group (used for classes that are nondeterministic by
+  // nature, where one particular run need not show the difference again)
+  std::map< std::string, std::vector< Violation > > group_more;
   for (auto &v : violations) {
     // message digits are folded so that one defect = one group
     std::string key = v.vclass + "|" + v.signature.dump();
     ++group_counts[key];
     if (!groups.count(key))
       groups[key] = v;
+    else if (group_more[key].size() < 7)
+      group_more[key].push_back(v);
   }
   int exit_code = 0;
   bool nondeterministic = false;
@@ -980,7 +986,7 @@ int check_main(int argc, char **argv, Engine &engine) {
   for (auto &og : order) {
     auto git = groups.find(og.second);
     auto &g = *git;
-    const Violation &v = g.second;
+    Violation v = g.second;
     if (exit_code == 1 &&
         (processed >= max_processed || wall_now() > t_violations_end)) {
       printf("further candidate (not re-run): class=%s runs=%llu "
@@ -995,9 +1001,30 @@ int check_main(int argc, char **argv, Engine &engine) {
     Outcome o1 = run_in_child(engine, cse, timeout);
     Outcome o2 = run_in_child(engine, cse, timeout);
     bool det = (family(o1.vclass) == family(v.vclass) &&
-                family(o2.vclass) == family(v.vclass) && o1.hash == o2.hash &&
-                (v.hash == 0 || o1.hash == v.hash ||
-                 family(v.vclass) == "crash-family"));
+                family(o2.vclass) == family(v.vclass) &&
+                (engine.hash_free_class(v.vclass) ||
+                 (o1.hash == o2.hash &&
+                  (v.hash == 0 || o1.hash == v.hash ||
+                   family(v.vclass) == "crash-family"))));
+    if (!det && engine.hash_free_class(v.vclass)) {
+      // a system under test that is nondeterministic need not show the
+      // difference in every pair of executions: try the other members of
+      // the group until one reproduces as a class in two fresh re-runs
+      for (auto &alt : group_more[g.first]) {
+        Json c2 = make_case(engine, b, alt.index);
+        Outcome a1 = run_in_child(engine, c2, timeout);
+        Outcome a2 = run_in_child(engine, c2, timeout);
+        if (family(a1.vclass) == family(v.vclass) &&
+            family(a2.vclass) == family(v.vclass)) {
+          v = alt;
+          cse = c2;
+          o1 = a1;
+          o2 = a2;
+          det = true;
+          break;
+        }
+      }
+    }
     if (!det) {
       printf("NONDETERMINISM property=%s index=%llu batch=(%s,%llu) "
              "rerun1=(%s,%llu) rerun2=(%s,%llu)\n",
